@@ -32,8 +32,8 @@ RULE = (
 TOLERANCES = {"everything": "bitwise / exact equality (OpenCV's RNG re-seeded before each colour-correction evaluation)"}
 ASSUMPTIONS = ["files are written to a per-run temporary directory that is removed afterwards", "lossless formats: PNG (8 bit) and TIFF (16 bit), as documented in OpticalImage.write"]
 FLOORS = {
-    "quick": {"npz_roundtrip": 250, "bytes_roundtrip": 150, "optical_write_read": 60, "correction_roundtrip": 150, "estimator_regions_compared": 100, "correction_path_reused": 200, "caller_config_edited_after_construction": 40, "curvature_crop_points_typed": 6, "curvature_resize_factor": 20},
-    "thorough": {"npz_roundtrip": 3000, "bytes_roundtrip": 1800, "optical_write_read": 700, "correction_roundtrip": 1700, "estimator_regions_compared": 1000, "correction_path_reused": 2000, "caller_config_edited_after_construction": 400, "curvature_crop_points_typed": 60, "curvature_resize_factor": 200},
+    "quick": {"npz_roundtrip": 250, "bytes_roundtrip": 150, "optical_write_read": 60, "correction_roundtrip": 150, "estimator_regions_compared": 100, "correction_path_reused": 200, "caller_config_edited_after_construction": 40, "curvature_crop_points_typed": 6, "curvature_resize_factor": 20, "curvature_interpolation_order": 20},
+    "thorough": {"npz_roundtrip": 3000, "bytes_roundtrip": 1800, "optical_write_read": 700, "correction_roundtrip": 1700, "estimator_regions_compared": 1000, "correction_path_reused": 2000, "caller_config_edited_after_construction": 400, "curvature_crop_points_typed": 60, "curvature_resize_factor": 200, "curvature_interpolation_order": 200},
 }
 SHARD_TIMEOUT = {"quick": 1500, "thorough": 7200}
 
@@ -308,6 +308,12 @@ def run_shard(spec, R):
             if ok_rf:
                 roundtrip("curvature_resize_factor", cur_rf, [xr, darsia.OpticalImage(xr.copy(), dimensions=[1.0, 1.0], color_space="RGB")], {"config": "bulge/stretch" + ("/crop" if n % 2 else ""), "resize_factor": rf})
                 R.count("curvature_resize_factor")
+            # non-default interpolation order (an option given next to the config)
+            io_ = int([0, 3, 2][(n + spec["shard"]) % 3])
+            ok_io, cur_io = R.guarded("construct:curvature", lambda: darsia.CurvatureCorrection(config=_copy.deepcopy(cfg), interpolation_order=io_))
+            if ok_io:
+                roundtrip("curvature_interpolation_order", cur_io, [x, darsia.OpticalImage(x.copy(), dimensions=[1.0, 1.0], color_space="RGB")], {"config": "bulge/stretch" + ("/crop" if n % 2 else ""), "interpolation_order": io_})
+                R.count("curvature_interpolation_order")
             cur2 = darsia.CurvatureCorrection(config=cfg)
             cur2(x.copy())  # populate the cache before saving
             roundtrip("curvature_used", cur2, [x, darsia.OpticalImage(x.copy(), dimensions=[1.0, 1.0], color_space="RGB")], {"config": "bulge/stretch" + ("/crop" if n % 2 else ""), "cache": True})
